@@ -5021,21 +5021,33 @@ class Entity(object, metaclass=EntityMeta):
             if wbits & bit:
                 del new_vals[attr]
 
-        for attr, new_val in new_vals.items():
-            if attr.is_unique:
-                old_val = get_val(attr)
-                if old_val != new_val:
-                    cache.db_update_simple_index(obj, attr, old_val, new_val)
+        # a key of the row that another object of the session holds is refused (TransactionIntegrityError); the keys
+        # registered before that have to go again, else the indexes point at values the object does not have
+        moved = []
+        try:
+            for attr, new_val in new_vals.items():
+                if attr.is_unique:
+                    old_val = get_val(attr)
+                    if old_val != new_val:
+                        cache.db_update_simple_index(obj, attr, old_val, new_val)
+                        moved.append((cache.indexes[attr], old_val, new_val))
 
-        for attrs in obj._composite_keys_:
-            if any(attr in new_vals for attr in attrs):
-                key_vals = [ get_val(a) for a in attrs ]  # In Python 2 var name leaks into the function scope!
-                prev_key_vals = tuple(key_vals)
-                for i, attr in enumerate(attrs):
-                    if attr in new_vals: key_vals[i] = new_vals[attr]
-                new_key_vals = tuple(key_vals)
-                if prev_key_vals != new_key_vals:
-                    cache.db_update_composite_index(obj, attrs, prev_key_vals, new_key_vals)
+            for attrs in obj._composite_keys_:
+                if any(attr in new_vals for attr in attrs):
+                    key_vals = [ get_val(a) for a in attrs ]  # In Python 2 var name leaks into the function scope!
+                    prev_key_vals = tuple(key_vals)
+                    for i, attr in enumerate(attrs):
+                        if attr in new_vals: key_vals[i] = new_vals[attr]
+                    new_key_vals = tuple(key_vals)
+                    if prev_key_vals != new_key_vals:
+                        cache.db_update_composite_index(obj, attrs, prev_key_vals, new_key_vals)
+                        moved.append((cache.indexes[attrs], prev_key_vals, new_key_vals))
+        except:
+            for cache_index, old_key, new_key in reversed(moved):
+                if cache_index.get(new_key) is obj: del cache_index[new_key]
+                if old_key is not None and not (isinstance(old_key, tuple) and None in old_key):
+                    cache_index.setdefault(old_key, obj)
+            raise
 
         for attr, new_dbval in new_dbvals.items():
             old_dbval = get_dbval(attr, NOT_LOADED)
